@@ -25,11 +25,12 @@ type profile struct {
 	MinStakingValue  uint64
 	WarmUpHeight     uint64
 	BindingLock      uint64
+	RewardStart      uint64 // consensus.StakingTxRewardStart: kept below MinFrozenPeriod as in the real parameters (24 < 61440)
 }
 
 var (
-	profSmall   = profile{"small", 4, 2, 1000000, 14, 5}
-	profDefault = profile{"default", 1000, 61440, 2048 * 100000000, 1398801, 0xfffffffe}
+	profSmall   = profile{"small", 4, 2, 1000000, 14, 5, 1}
+	profDefault = profile{"default", 1000, 61440, 2048 * 100000000, 1398801, 0xfffffffe, 24}
 	curProfile  profile
 )
 
@@ -39,6 +40,7 @@ func useProfile(p profile) {
 	consensus.MinStakingValue = p.MinStakingValue
 	consensus.MASSIP0002WarmUpHeight = p.WarmUpHeight
 	consensus.MASSIP0002BindingLockedPeriod = p.BindingLock
+	consensus.StakingTxRewardStart = p.RewardStart
 	keystore.DefaultScryptOptions = keystore.ScryptOptions{N: 16, R: 8, P: 1}
 	curProfile = p
 }
